@@ -3,6 +3,8 @@
     consistent                                    -> "true" | "false"
     fiber <status> <noUseval> <noSkip> <frame> <stackstart> <stacktop> <maxstack> {7 numbers per frame record}
                                                   -> "inv=<acc|rej> src=<acc|rej>"  (all checks = the invariant / checks of the current source)
+    pegrows                                       -> global flags + opcode numbers whose verifier row does not cover peg_rule
+    pegverify <num_constants> <words...>          -> "acc" | "rej"   (model of the verifier in peg_unmarshal)
     verify <sc> <arity> <vararg> <nc> <nd> <ne> <hex of u32 LE words> -> error code of the janet_verify model (0 = accepted)
 -/
 import Driver.Util
@@ -10,6 +12,8 @@ import JanetModel.Bytecode.VerifyDefs
 import JanetModel.Gen.VmAccess
 import JanetModel.Unmarsh.Image
 import JanetModel.Gen.ImageChecks
+import JanetModel.PegVerify.Defs
+import JanetModel.Gen.PegAccess
 open Driver JanetModel.Bytecode JanetModel.Gen.VmAccess JanetModel.Unmarsh
 
 def allChecks : Checks :=
@@ -48,6 +52,15 @@ def step (_ : Unit) (toks : List String) : Unit × String :=
     | some sc, some ar, some va, some nc, some nd, some ne =>
       ((), toString (verify tables { slotcount := sc, arity := ar, vararg := va != 0, nconsts := nc, ndefs := nd, nenvs := ne, bytecode := [] }))
     | _, _, _, _, _, _ => ((), "bad-op")
+  | ["pegrows"] =>
+    let T := JanetModel.Gen.PegAccess.tables
+    let bad := T.badRows
+    ((), s!"exactEnd={T.exactEnd} marksChecked={T.marksChecked} nonEmpty={T.nonEmpty} bad={" ".intercalate (bad.map toString)}")
+  | "pegverify" :: nc :: ws =>
+    -- pegverify <num_constants> <bytecode words...>
+    match nc.toNat?, allNat ws with
+    | some nc, some bc => ((), if JanetModel.PegVerify.pegVerify JanetModel.Gen.PegAccess.tables bc nc then "acc" else "rej")
+    | _, _ => ((), "bad-op")
   | "fiber" :: rest =>
     -- fiber <status> <noUseval> <noSkip> <frame> <stackstart> <stacktop> <maxstack> {<entrance> <prevframe> <pcdiff> <slotcount> <bclen> <atCall> <aIsSlot>}*
     match allNat rest with
